@@ -181,9 +181,9 @@ def comps_to_tensor(c: dict, d: int) -> np.ndarray:
 # ------------------------------------------------------------------------------------------------
 # case enumeration
 # ------------------------------------------------------------------------------------------------
-ELASTIC_MATERIALS = ["iso", "iso_pe", "transiso", "ortho", "aniso", "aniso_voigt"]
+ELASTIC_MATERIALS = ["iso", "iso_pe", "transiso", "transiso_elem", "ortho", "aniso", "aniso_voigt"]
 HYPER_MATERIALS = ["svk", "mooney", "holzapfel"]
-AXES_MATERIALS = {"transiso", "ortho", "aniso", "aniso_voigt", "holzapfel"}
+AXES_MATERIALS = {"transiso", "transiso_elem", "ortho", "aniso", "aniso_voigt", "holzapfel"}
 BEAM_THEORIES = ["EB", "TIMO"]
 
 
@@ -381,7 +381,7 @@ def _axes0(case):
     return Z.rot3(_unit(r.normal(size=3)), np.radians(r.uniform(20, 160)))
 
 
-def _material(case, A, Q):
+def _material(case, A, Q, Ne=None):
     """The law of the body moved by Q (Q = identity: the original).  A: initial axes (3x3 proper rotation)."""
     from EasyFEA import Models
 
@@ -402,6 +402,10 @@ def _material(case, A, Q):
         return E.Isotropic(d, E=1.0, v=0.3, planeStress=True, thickness=1.3)
     if name == "iso_pe":
         return E.Isotropic(d, E=1.0, v=0.3, planeStress=False, thickness=1.3)
+    if name == "transiso_elem":
+        # one constant given per element (the moved body keeps its element numbering)
+        El = 2.6 * (1.0 + 0.15 * np.linspace(0.0, 1.0, int(Ne)))
+        return E.TransverselyIsotropic(d, El=El, Et=1.1, Gl=0.7, vl=0.28, vt=0.34, axis_l=a1, axis_t=a2, planeStress=True, thickness=1.3)
     if name == "transiso":
         return E.TransverselyIsotropic(d, El=2.6, Et=1.1, Gl=0.7, vl=0.28, vt=0.34, axis_l=a1, axis_t=a2, planeStress=True, thickness=1.3)
     if name == "ortho":
@@ -616,7 +620,7 @@ def _run_continuum(case):
         # original
         mesh0 = zm.build()
         mesh_copy = mesh0.copy()
-        simu0 = _make_simu(case, mesh0, _material(case, A, np.eye(3)))
+        simu0 = _make_simu(case, mesh0, _material(case, A, np.eye(3), mesh0.Ne))
         try:
             o0, n = _solve_continuum(simu0, case, sets, zm.coords, np.eye(3))
         except AssertionError as err:
@@ -634,7 +638,7 @@ def _run_continuum(case):
         ways["coords"] = zm.mapped(Q, t).build()
         for way, mesh in ways.items():
             cmp.check(way, "mesh_coordinates", np.asarray(mesh.coord, dtype=float), xT, tol=1e-12, scale=max(1.0, np.abs(xT).max()))
-            simu = _make_simu(case, mesh, _material(case, A, Q))
+            simu = _make_simu(case, mesh, _material(case, A, Q, mesh.Ne))
             try:
                 oT, n = _solve_continuum(simu, case, sets, zm.coords, Q)
             except AssertionError as err:
